@@ -244,8 +244,27 @@ def overloads(prog, ctx):
                 if d.get('init') is not None and any(x is cs[0] for x in walk_expr(d['init'])) if cs else False:
                     rule_var = d['name']
     ok1 = ok1 and len(dl) == 1 and [show(strip_casts(a)) for a in dl[0]['args']] == [ps[0], rule_var]
-    ctx.decide(R, 'overload(func,a,b,n)', f1, ok1, 'builds the rule for (n, a, b) and delegates to the rule-based overload',
-               'first overload computes the rule with %s and delegates %s' % ([[show(a) for a in c['args']] for c in cs], [[show(a) for a in c['args']] for c in dl]))
+    # every returning path is that delegation (a shortcut that returns something else for some (a, b, n) bypasses the rule)
+    CG = L + 'Compute_Gauss_Legendre_Roots_and_Weights'
+    AU = sp.core.function.AppliedUndef
+    sx1 = Symx(prog, f1)
+    pa, pb, pn_ = (sx1.symbol(f1.params[i_]['name'], f1.params[i_]['ty']) for i_ in (1, 2, 3))
+    rets1 = [o for o in sx1.run() if o.kind == 'return']
+
+    def delegates(v):
+        if not (isinstance(v, AU) and v.func.__name__ == Q):
+            return False
+        return any(isinstance(x_, AU) and x_.func.__name__ == CG and tuple(x_.args) == (pn_, pa, pb) for x_ in v.atoms(AU))
+    def empty_interval(o):
+        # a == b exactly: all weights vanish, the rule gives 0 as well
+        cs_ = list(o.cond.args) if isinstance(o.cond, sp.And) else [o.cond]
+        return o.value == 0 and any(isinstance(c_, sp.Equality) and {c_.lhs, c_.rhs} == {pa, pb} for c_ in cs_)
+    shortcuts = [o for o in rets1 if not delegates(o.value) and not empty_interval(o)]
+    detail1 = 'first overload computes the rule with %s and delegates %s' % ([[show(a) for a in c['args']] for c in cs], [[show(a) for a in c['args']] for c in dl])
+    if shortcuts:
+        detail1 = 'a path returns %s under %s without building the rule for (n, a, b): the overloads disagree there' % (str(shortcuts[0].value)[:60], str(shortcuts[0].cond)[:120])
+    ctx.decide(R, 'overload(func,a,b,n)', f1, ok1 and not shortcuts and len(rets1) >= 1, 'builds the rule for (n, a, b) and delegates to the rule-based overload on every path',
+               detail1, witness={'path': str(shortcuts[0].cond), 'returns': str(shortcuts[0].value)} if shortcuts else None)
     # second: values[i] = func(rule[i][0]) for all i, then delegate
     sx = Symx(prog, f2)
     outs = [o for o in sx.run() if o.kind == 'return']
